@@ -247,6 +247,8 @@ def rule_g(ctx):
 
 
 def run(ctx):
+    from rules.shared_rules import reset_final_size_guarded
+    reset_final_size_guarded(ctx, 'f', 'reset_final_size_subtraction_guarded')
     from rules.shared_rules import incoming_slot_route_paired
     from rules.shared_rules import cid_replacement_only_for_retired
     cid_replacement_only_for_retired(ctx, 'c', 'cid_replacement_only_for_retired_cid')
